@@ -5,6 +5,7 @@
 //@include prelude_types.rs
 //@include prelude_geo.rs
 //@include frag_rect_access.rs
+//@include frag_seg_geometry.rs
 verus! {
 
 /// contract of point_in_rect (proved in unit c02_ring: obligation C02.V.point_in_rect)
@@ -143,19 +144,44 @@ where
 }
 
 // ------------------------------------------------------------------ Rect x Line (closed rectangle vs closed segment)
-/// textbook segment test (as in the K oracle spec::seg_meet)
-pub open spec fn seg_meet(a: P2, b: P2, c: P2, d: P2) -> bool {
-    (orient_spec(a, b, c) != orient_spec(a, b, d) && orient_spec(c, d, a) != orient_spec(c, d, b))
-    || on_segment(c, a, b) || on_segment(d, a, b) || on_segment(a, c, d) || on_segment(b, c, d)
-}
-/// contract of `Line: Intersects<Line>` -- ASSUMED here (decided completely on the lattice by K harness c02_k_line_line)
+/// `Line: Intersects<Line>` against the textbook segment test `seg_meet` (frag_seg_geometry.rs), for ANY exact-sign
+/// kernel: degenerate self -> point on segment; different orientations of the other's ends -> decided by the mirrored
+/// test; all collinear -> one-dimensional box tests (the code tests `self.end` twice and never `self.start`: proved
+/// harmless by the 1-D ordering argument)
 impl<T> Intersects<Line<T>> for Line<T>
 where
     T: GeoNum,
 {
     open spec fn meets(&self, line: &Line<T>) -> bool { seg_meet(pt(self.start), pt(self.end), pt(line.start), pt(line.end)) }
-    #[verifier::external_body]
-    fn intersects(&self, line: &Line<T>) -> (r: bool) { unimplemented!() }
+//@fn geo/src/algorithm/intersects/line.rs | impl<T> Intersects<Line<T>> for Line<T> where T: GeoNum, | intersects | id=C02.V.line_intersects_line
+//@entry
+        proof {
+            T::ax_obeys(); T::ax_order();
+            let (a, b, c, d) = (pt(self.start), pt(self.end), pt(line.start), pt(line.end));
+            lemma_ends_on_segment(a, b); lemma_ends_on_segment(c, d);
+            lemma_four_crosses(a, b, c, d);
+            if a == b {
+                // cross(a, a, x) == 0 for every x
+                assert(cross(a, b, c) == 0 && cross(a, b, d) == 0) by (nonlinear_arith)
+                    requires a == b, cross(a, b, c) == (b.x - a.x) * (c.y - b.y) - (b.y - a.y) * (c.x - b.x), cross(a, b, d) == (b.x - a.x) * (d.y - b.y) - (b.y - a.y) * (d.x - b.x);
+            } else {
+                if c != d { lemma_rejections_sound(a, b, c, d); }
+                if cross(a, b, c) == 0 && cross(a, b, d) == 0 {
+                    lemma_collinear_transitive(a, b, c, d);
+                    lemma_collinear_1d(a, b, c); lemma_collinear_1d(a, b, d);
+                    if c != d { lemma_collinear_1d(c, d, a); lemma_collinear_1d(c, d, b); lemma_collinear_distinct_x(a, b, c, d); }
+                }
+                if c == d {
+                    assert(cross(c, d, a) == 0 && cross(c, d, b) == 0) by (nonlinear_arith)
+                        requires c == d, cross(c, d, a) == (d.x - c.x) * (a.y - d.y) - (d.y - c.y) * (a.x - d.x), cross(c, d, b) == (d.x - c.x) * (b.y - d.y) - (d.y - c.y) * (b.x - d.x);
+                }
+                if !same_strict_side(cross(a, b, c), cross(a, b, d)) && !same_strict_side(cross(c, d, a), cross(c, d, b))
+                    && !(cross(a, b, c) == 0 && cross(a, b, d) == 0 && cross(c, d, a) == 0 && cross(c, d, b) == 0) {
+                    lemma_touching(a, b, c, d);
+                }
+            }
+        }
+//@end
 }
 impl<T: CoordNum> vstd::std_specs::convert::FromSpecImpl<(T, T)> for Coord<T> {
     open spec fn obeys_from_spec() -> bool { false }
